@@ -6,7 +6,7 @@
    fact used about it is the recorded hypothesis 0 <= disc v m <= v (checked on every real call
    by the harness, and proved for the ideal rational formula, [cubic_discount_within_value]). *)
 From Coq Require Import List ZArith NArith Bool Permutation.
-From GQ Require Import Generated.C20Params Model.C20 Proofs.C20 Proofs.C20_Last Proofs.C20_Origin Proofs.C20_Redeem.
+From GQ Require Import Generated.C20Params Model.C20 Proofs.C20 Proofs.C20_Last Proofs.C20_Origin Proofs.C20_Redeem Proofs.C20_Ctl.
 Import ListNotations.
 Local Open Scope Z_scope.
 
@@ -378,3 +378,175 @@ Example redeem_nonvacuous :
     [241929; 241930; 241931; 1555210; 3110410; 6307210]
   = [[]; [(1%N, 1%N, 123000000000000000000)]; [(4%N, 1%N, 7)]; []; []; []].
 Proof. exact redeem_nonvacuous_l. Qed.
+
+(* ================= extension round: the exchange-rate controller, the prime block with the
+   controller's rate, and the pipeline after Prime as one function =================
+   [calc_kquai] = misc.CalculateKQuai, [beta_rate] = core.CalculateBetaFromMiningChoiceAndConversions
+   (exact integer arithmetic; common.LogBig is an input recorded from the real function),
+   compared with the real functions on every run (case kinds CKQuai / CBeta). *)
+
+(* generated: alpha and window size positive, reset rates and table percentages non-negative, the
+   fork blocks in the order the branch structure assumes *)
+Theorem controller_constants_ok : ctl_params_ok = true.
+Proof. exact ctl_params_ok_true. Qed.
+Print Assumptions controller_constants_ok.
+
+Theorem controller_is_the_reviewed_one :
+  kquai_shape_sha256 = CtlDigest.reviewed_kquai_shape_sha256 /\ kquai_shape_len = 16 /\
+  beta_shape_sha256 = CtlDigest.reviewed_beta_shape_sha256 /\ beta_shape_len = 38.
+Proof. exact ctl_shapes_reviewed. Qed.
+Print Assumptions controller_is_the_reviewed_one.
+
+(* one controller step, for ALL rates, difficulties, windows and block numbers: the new rate is
+   never negative, loses at most 1/OneOverAlpha of the old one (plus one unit of rounding), rises
+   only when xbStar*log(d) > 2^64*d, falls only when it is smaller, and is frozen when balanced *)
+Theorem kquai_step_bounded_and_directed : forall k d d2 bn xb r,
+  0 <= k -> 0 <= d -> 0 <= d2 -> 0 <= xb ->
+  calc_kquai k d d2 bn xb = Some r ->
+  1 <= d /\ 0 <= r /\ k * (one_over_alpha - 1) - one_over_alpha < r * one_over_alpha /\
+  (0 < xb * d2 - two64 * d -> k <= r) /\ (xb * d2 - two64 * d <= 0 -> r <= k) /\
+  (xb * d2 = two64 * d -> r = k).
+Proof. exact calc_kquai_spec. Qed.
+Print Assumptions kquai_step_bounded_and_directed.
+
+(* "the rate stays positive" is false of the code: 1 falls to 0 and 0 is absorbing *)
+Theorem controller_rate_positive_refuted :
+  calc_kquai 1 5000000000000 778177102095775710118 2000000 0 = Some 0 /\
+  (forall d d2 bn xb, 1 <= d -> 0 <= d2 -> 0 <= xb -> calc_kquai 0 d d2 bn xb = Some 0).
+Proof. exact rate_positive_refuted. Qed.
+Print Assumptions controller_rate_positive_refuted.
+
+(* whatever branch of the fork schedule is taken, the rate handed to the conversion block is >= 0 *)
+Theorem controller_rate_never_negative : forall parent c r,
+  0 <= parent -> ctl_ok c -> beta_rate parent c = Some r -> 0 <= r.
+Proof. exact beta_rate_nonneg. Qed.
+Print Assumptions controller_rate_never_negative.
+
+(* frozen trajectories: pinned to the protocol constants at the two fork resets, equal to the
+   parent's rate during the hold intervals behind them, whatever window and difficulty say *)
+Theorem controller_frozen_and_pinned_in_fork_regimes : forall parent c,
+  controller_kick_in_block + token_choice_set_size <= c_bn c ->
+  (c_bn c = kawpow_fork_block -> beta_rate parent c = Some exchange_rate_reset_after_kawpow) /\
+  (kawpow_fork_block < c_bn c -> c_bn c < sha_equivalent_fork_block ->
+   c_bn c < kawpow_fork_block + exchange_rate_hold_interval -> beta_rate parent c = Some parent) /\
+  (c_bn c = sha_equivalent_fork_block -> beta_rate parent c = Some exchange_rate_after_sha_fork) /\
+  (sha_equivalent_fork_block < c_bn c ->
+   c_bn c < sha_equivalent_fork_block + exchange_rate_hold_interval_after_sha -> beta_rate parent c = Some parent).
+Proof. exact beta_rate_fork_regimes. Qed.
+Print Assumptions controller_frozen_and_pinned_in_fork_regimes.
+
+(* rising / falling trajectories: outside the fork schedule the step is CalculateKQuai on the
+   window average *)
+Theorem controller_step_outside_fork_regimes : forall parent c r,
+  0 <= parent -> ctl_ok c ->
+  controller_kick_in_block + token_choice_set_size <= c_bn c ->
+  fork_override (c_bn c) parent = None ->
+  beta_rate parent c = Some r ->
+  let xb := total_diff (c_runs c) / token_choice_set_size * two64 / c_logbest c in
+  0 <= r /\ parent * (one_over_alpha - 1) - one_over_alpha < r * one_over_alpha /\
+  (0 < xb * c_logmd c - two64 * c_md c -> parent <= r) /\
+  (xb * c_logmd c - two64 * c_md c <= 0 -> r <= parent) /\
+  (xb * c_logmd c = two64 * c_md c -> r = parent).
+Proof. exact beta_rate_controller_step. Qed.
+Print Assumptions controller_step_outside_fork_regimes.
+
+(* every exchange-rate trajectory (any length, any mix of fork regimes, windows, difficulties)
+   that starts non-negative stays non-negative: the hypotheses 0 <= header rate / 0 <= new rate of
+   the conversion theorems hold along the whole chain *)
+Theorem rate_trajectory_never_negative : forall cs k0 k,
+  0 <= k0 -> Forall ctl_ok cs -> rate_trajectory k0 cs = Some k -> 0 <= k.
+Proof. exact rate_trajectory_nonneg. Qed.
+Print Assumptions rate_trajectory_never_negative.
+
+(* the prime block as ONE function (rate from the store while the update is paused, else from the
+   controller; then the three passes): the rate hypothesis of every reprice theorem is discharged *)
+Theorem prime_block_rate_hypothesis_discharged : forall disc h stored c etxs knew r,
+  rates_ok h -> ctl_ok c -> (forall k, stored = Some k -> 0 <= k) ->
+  Forall (fun e => 0 <= e_value e) etxs ->
+  prime_block disc h stored c etxs = Some (knew, r) ->
+  inputs_ok h knew etxs /\ reprice disc h knew etxs = Some r.
+Proof. exact prime_block_inputs_ok. Qed.
+Print Assumptions prime_block_rate_hypothesis_discharged.
+
+Theorem prime_block_credit_le_rate_amount : forall disc,
+  (forall v m, 0 <= v -> 0 <= disc v m <= v) ->
+  forall h stored c etxs knew r o,
+  rates_ok h -> ctl_ok c -> (forall k, stored = Some k -> 0 <= k) ->
+  Forall (fun e => 0 <= e_value e) etxs -> postfork h = true -> 0 <= h_kqd h ->
+  prime_block disc h stored c etxs = Some (knew, r) -> In o (r_out r) -> o_kind o = KConverted ->
+  0 <= knew /\ o_value o <= rate_amount h knew (o_e o) (e_value (o_e o)).
+Proof. exact prime_block_credit_le_rate. Qed.
+Print Assumptions prime_block_credit_le_rate_amount.
+
+(* END TO END (repricing -> destination -> redemption step), per conversion of a prime block, for
+   every mix, order, slip, ETX gas, recipient: [settle] yields exactly one outcome; a credit (Qi
+   minted, or Quai paid by the redemption step) is at most the repriced value, which is at most
+   the rate-implied amount of the ORIGINAL value; a refused Quai->Qi conversion returns exactly
+   the original Quai; a refused Qi->Quai conversion returns at most original - dust (exactly that
+   when the ETX gas pays every piece; see revert_returns_original_on_qi_ledger_refuted). *)
+Theorem conversion_end_to_end : forall disc,
+  (forall v m, 0 <= v -> 0 <= disc v m <= v) ->
+  forall h knew etxs r o ptn gas fee ex,
+  inputs_ok h knew etxs -> postfork h = true -> 0 <= h_kqd h ->
+  reprice disc h knew etxs = Some r -> In o (r_out r) ->
+  e_conv (o_e o) = true -> 0 < e_value (o_e o) ->
+  qi_amounts_in_range h knew (o_e o) -> 0 <= gas -> 0 <= fee ->
+  match settle ptn gas fee ex o with
+  | ONone => False
+  | OCreditQi a =>
+      o_kind o = KConverted /\ e_toqi (o_e o) = true /\
+      0 <= a <= o_value o /\ o_value o <= rate_amount h knew (o_e o) (e_value (o_e o))
+  | OCreditQuai a =>
+      o_kind o = KConverted /\ e_toqi (o_e o) = false /\
+      0 <= a <= o_value o /\ (ex = true -> a = o_value o) /\
+      o_value o <= rate_amount h knew (o_e o) (e_value (o_e o))
+  | ORefundQuai a => o_kind o = KReverted /\ e_toqi (o_e o) = true /\ a = e_value (o_e o)
+  | ORefundQi a =>
+      o_kind o = KReverted /\ e_toqi (o_e o) = false /\
+      0 <= a <= e_value (o_e o) - dust (e_value (o_e o)) /\
+      dust (e_value (o_e o)) < smallest_refundable /\
+      (denoms_count (filter above_trim (find_min_denominations (e_value (o_e o)))) * call_value_transfer_gas <= gas ->
+       denoms_count (filter above_trim (find_min_denominations (e_value (o_e o)))) <= max_output_index ->
+       a = e_value (o_e o) - dust (e_value (o_e o)))
+  end.
+Proof. exact pipeline_end_to_end. Qed.
+Print Assumptions conversion_end_to_end.
+
+(* the Qi credit is exactly the repriced value when the ETX gas pays TxGas plus every output *)
+Theorem destination_mint_exact_with_gas : forall ptn gas v,
+  0 <= v -> v < two64 * top_den -> controller_kick_in_block <= ptn ->
+  tx_gas + denoms_count (find_min_denominations v) * call_value_transfer_gas <= gas ->
+  denoms_count (find_min_denominations v) <= max_output_index ->
+  settle_qi ptn gas v = v.
+Proof. exact settle_qi_exact. Qed.
+Print Assumptions destination_mint_exact_with_gas.
+
+(* the Quai credit of [settle] is what the redemption step of RedeemLockedQuai pays for the ETX *)
+Theorem quai_credit_is_the_redemption_step : forall fee exs out e,
+  snd (pay_one fee (exs, out) e) =
+  out ++ (if negb (n_mem (q_to e) exs) && (q_value e <? fee) then []
+          else [(q_id e, q_to e, settle_quai fee (n_mem (q_to e) exs) (q_value e))]).
+Proof. exact settle_quai_is_pay_one. Qed.
+Print Assumptions quai_credit_is_the_redemption_step.
+
+Example controller_nonvacuous :
+  let d := 5000000000000 in let ld := 778177102095775710118 in let k := 221077819000000000 in
+  let bal := two64 * d / ld in
+  calc_kquai k d ld 2000000 (2 * bal) = Some 221298896818998026 /\
+  calc_kquai k d ld 800000 (2 * bal) = Some 221151511606332675 /\
+  calc_kquai k d ld 2000000 (bal / 2) = Some 220967280090499506 /\
+  beta_rate k (mkCtl 1011200 [(3 * d, 4000)] 807414499713005568838 d ld) = Some (k * 75 / 100) /\
+  beta_rate k (mkCtl 1171500 [(3 * d, 4000)] 807414499713005568838 d ld) = Some exchange_rate_reset_after_kawpow /\
+  beta_rate k (mkCtl 1171501 [(3 * d, 4000)] 807414499713005568838 d ld) = Some k.
+Proof. exact controller_witness. Qed.
+
+(* the whale of [reprice_nonvacuous] is minted in full with ample gas and loses everything below
+   TxGas; the conversion refused behind it gets its Quai back *)
+Example pipeline_nonvacuous :
+  let h := mkHdr 300000 221077819000000000 737869762948382064640 5000000000000 8000000000 100 10000000000000000000000 true in
+  let l := [mkEtx 1%N true true 10000000000000000000000 (Some 30); mkEtx 2%N false true 77 None;
+            mkEtx 3%N true true 60000000000000000000000 (Some 9000)] in
+  option_map (fun r => map (settle 300000 1000000 0 true) (r_out r)) (reprice disc_ideal h 221077819000000000 l)
+  = Some [OCreditQi 3317060; ORefundQuai 10000000000000000000000; ONone]
+  /\ settle_qi 300000 20999 3317060 = 0 /\ settle_qi 262000 30000 3317060 = 1000000 /\ settle_qi 261999 1000000 3317060 = 0.
+Proof. vm_compute. repeat split; reflexivity. Qed.
